@@ -1,6 +1,8 @@
 package main
 
 import (
+	"crypto/sha256"
+	"encoding/hex"
 	"fmt"
 	"go/ast"
 	"go/token"
@@ -719,4 +721,57 @@ func genDevModes(r *repo, o *out) {
 	}
 	o.def("devModesJoinExpr", "String", leanStr(ret("devModesJoin")), "return expression of osfs.devModesJoin(major, minor)")
 	o.def("devModesSplitExpr", "String", leanStr(ret("devModesSplit")), "return expressions of osfs.devModesSplit(rdev) (linux)")
+}
+
+// genModelledFuncs: a digest of the source text (comments excluded) of every function the hand-written Lean models
+// mirror.  Each property pins the digests of "its" functions (theorems `Cxx_source_tie`): any edit of such a function —
+// harmless or not — breaks that tie and makes the check search for a failing input.
+func genModelledFuncs(r *repo, o *out) {
+	type fn struct{ dir, recv, name string }
+	fns := []fn{
+		{"fs", "", "MustRelPath"}, {"fs", "", "ParseAbsolutePath"},
+		{"fs", "RelPath", "String"}, {"fs", "RelPath", "Dir"}, {"fs", "RelPath", "Last"}, {"fs", "RelPath", "Join"}, {"fs", "RelPath", "GoesUp"},
+		{"fs", "RelPath", "Split"}, {"fs", "RelPath", "SplitParent"},
+		{"fs", "AbsolutePath", "String"}, {"fs", "AbsolutePath", "Dir"}, {"fs", "AbsolutePath", "Last"}, {"fs", "AbsolutePath", "Join"}, {"fs", "AbsolutePath", "CoerceRelative"},
+		{"fs/osfs", "osFS", "realpath"}, {"fs/osfs", "osFS", "_realpath"}, {"fs/osfs", "osFS", "resolveLink"}, {"fs/osfs", "osFS", "ResolveLink"},
+		{"fs/osfs", "osFS", "OpenFile"}, {"fs/osfs", "osFS", "LStat"}, {"fs/osfs", "osFS", "Stat"}, {"fs/osfs", "osFS", "convertFileinfo"}, {"fs/osfs", "osFS", "Readlink"},
+		{"fs/osfs", "", "devModesJoin"}, {"fs/osfs", "", "devModesSplit"},
+		{"fsOp", "", "PlaceFile"}, {"fsOp", "", "ScanFile"}, {"fsOp", "", "MkdirAll"}, {"fsOp", "", "RemoveDirContent"},
+		{"transmat/mixins/filters", "", "ApplyPackFilter"}, {"transmat/mixins/filters", "", "ApplyUnpackFilter"},
+		{"transmat/mixins/fshash", "", "HashBucket"}, {"transmat/mixins/fshash", "", "marshalMetadata"},
+		{"transmat/mixins/fshash", "MemoryBucket", "AddRecord"}, {"transmat/mixins/fshash", "MemoryBucket", "UpdateRecord"}, {"transmat/mixins/fshash", "MemoryBucket", "HasRecord"},
+		{"transmat/mixins/fshash", "MemoryBucket", "Iterator"}, {"transmat/mixins/fshash", "MemoryBucket", "Length"}, {"transmat/mixins/fshash", "memoryBucketIterator", "NextChild"},
+		{"transmat/tar", "", "TarHdrToMetadata"}, {"transmat/tar", "", "MetadataToTarHdr"}, {"transmat/tar", "", "unpackTar"}, {"transmat/tar", "", "packTar"},
+		{"transmat/tar", "", "Decompress"}, {"transmat/tar", "", "DetectCompression"},
+		{"transmat/zip", "", "ZipHdrToMetadata"}, {"transmat/zip", "", "MetadataToZipHdr"}, {"transmat/zip", "", "unpackZip"}, {"transmat/zip", "", "packZip"},
+		{"transmat/util", "", "PickReader"}, {"transmat/util", "", "wrapUnpacker"}, {"transmat/util", "", "CreateMirror"}, {"warehouse/util", "", "ChunkifyHash"},
+		{"transmat/util", "flippingReader", "Read"},
+		{"transmat/mixins/cache", "cache", "Unpack"}, {"transmat/mixins/cache", "cache", "populate"}, {"transmat/mixins/cache", "cache", "place"}, {"cache", "", "ShelfFor"},
+		{"transmat/mixins/buffer", "", "SectionReader"},
+		{"lib/guid", "", "New"},
+		{"warehouse/impl/kvfs", "", "NewController"}, {"warehouse/impl/kvfs", "Controller", "OpenReader"}, {"warehouse/impl/kvfs", "Controller", "OpenWriter"},
+		{"warehouse/impl/kvfs", "WriteController", "Write"}, {"warehouse/impl/kvfs", "WriteController", "Commit"}, {"warehouse/impl/kvfs", "WriteController", "Close"},
+		{"warehouse/impl/kvhttp", "Controller", "OpenReader"},
+		{"stitch", "Assembler", "Run"}, {"stitch", "housekeeping", "Teardown"}, {"stitch", "housekeeping", "append"}, {"stitch", "", "isUnderPath"}, {"stitch", "", "PackMulti"},
+		{"stitch/placer", "", "CopyPlacer"}, {"stitch/placer", "", "BindPlacer"}, {"stitch/placer", "", "NewOverlayPlacer"}, {"stitch/placer", "", "mkDest"},
+		{"stitch/placer", "copyJanitor", "AlwaysTry"}, {"stitch/placer", "bindJanitor", "AlwaysTry"}, {"stitch/placer", "overlayJanitor", "AlwaysTry"},
+		{"transmat/git", "", "unpack"}, {"transmat/git", "", "unpackOneRepo"}, {"transmat/git", "", "pick"},
+		{"warehouse/impl/git", "Controller", "Contains"}, {"warehouse/impl/git", "Controller", "setCacheStorage"},
+	}
+	var rows []string
+	for _, f := range fns {
+		fd := r.funcDeclOpt(f.dir, f.recv, f.name)
+		q := f.dir + ":" + f.recv + "." + f.name
+		if fd == nil {
+			rows = append(rows, fmt.Sprintf("(%s, %s)", leanStr(q), leanStr("absent")))
+			continue
+		}
+		doc := fd.Doc
+		fd.Doc = nil
+		src := r.src(fd)
+		fd.Doc = doc
+		sum := sha256.Sum256([]byte(src))
+		rows = append(rows, fmt.Sprintf("(%s, %s)", leanStr(q), leanStr(hex.EncodeToString(sum[:8]))))
+	}
+	o.def("modelledFuncs", "List (String × String)", "[\n  "+strings.Join(rows, ",\n  ")+"]", "digest (first 8 bytes of SHA-256 of the printed source, comments excluded) of every function the Lean models mirror")
 }
